@@ -209,24 +209,33 @@ def euler_clause(model, rep, funcs):
     f = funcs.get(MR + "translate_euler")
     if f is not None:
         rep.instance("TABLE.euler", f.loc())
-        dicts = [n for n in ast.walk(f.node) if isinstance(n, ast.Dict)]
-        ok = False
-        det = ""
-        if dicts:
-            d = {norm_src(k): norm_src(v) for k, v in zip(dicts[0].keys, dicts[0].values)}
-            want = {"'x'": "'z'", "'z'": "'x'", "'X'": "'Z'", "'Z'": "'X'"}
-            ok = d == want
-            det = f"table {d}"
-        rev = "[::-1]" in norm_src(f.node)
-        rep.ob("TABLE", f.anchor, "Euler sequences are translated between zyx and xyz conventions by the involution x<->z, X<->Z with reversal", ok and rev,
-               det + ("" if rev else "; sequence is not reversed"), node=f.node, fn=f, clause="3 euler", stmt="def translate_euler")
+        # decided by constant evaluation of the function body on representative sequences (sa/domains/consts.py folds str.maketrans / translate / slicing on
+        # constants): however the table is spelled (dict, two strings, module constant) and in whichever order swap and reversal are applied
+        from ..domains.consts import ConstDomain
+        swap = str.maketrans("xzXZ", "zxZX")
+        ok, det = True, ""
+        for s_ in ("xyz", "zyx", "ZXZ", "XYZ", "zxy", "Zx", "y"):
+            cd = ConstDomain(param_values={f.param_names()[0]: s_})
+            out = Interp(model, cd, depth=1).run(f)
+            want = s_.translate(swap)[::-1]
+            if not (isinstance(out, Const) and out.value == want):
+                ok = False if isinstance(out, Const) else None
+                det = f"translate_euler({s_!r}) evaluates to {out!r}, required {want!r} (x<->z, X<->Z and reversed order)"
+                break
+        rep.ob("TABLE", f.anchor, "Euler sequences are translated between zyx and xyz conventions by the involution x<->z, X<->Z with reversal", ok, det,
+               node=f.node, fn=f, clause="3 euler", stmt="def translate_euler")
     f = funcs.get(MR + "from_euler_xyz_coords")
     g = funcs.get(MC + "Molecules.euler_angle")
     if f is not None and g is not None:
         rep.instance("TABLE.euler", f.loc())
-        s1, s2 = norm_src(f.node), norm_src(g.node)
-        ok1 = "translate_euler(seq)" in s1 and "angles[..., ::-1]" in s1
-        ok2 = "translate_euler(seq)" in s2 and "[..., ::-1]" in s2 and "as_euler(seq, degrees=degrees)" in s2
+        MRd, MWr = Matcher(f), Matcher(g)
+        # reader: Rotation.from_euler(translated sequence, angle columns reversed, degrees); writer: as_euler(translated sequence, degrees)[..., ::-1]
+        ok1 = any(MRd.has(p_) for p_ in ("return Rotation.from_euler(translate_euler(seq), $$a[..., ::-1], degrees)",
+                                         "return Rotation.from_euler(translate_euler(seq), $$a[..., ::-1], degrees=degrees)",
+                                         "Rotation.from_euler($s, $$a[..., ::-1], ...)")) and MRd.has("translate_euler(seq)") and \
+            (MRd.has("Rotation.from_euler($$s, $$a, degrees)") or MRd.has("Rotation.from_euler($$s, $$a, degrees=degrees)"))
+        ok2 = MWr.has("translate_euler(seq)") and any(MWr.has(p_) for p_ in ("return self._rotator.as_euler(translate_euler(seq), degrees=degrees)[..., ::-1]",
+                                                                              "self._rotator.as_euler($s, degrees=degrees)[..., ::-1]"))
         rep.ob("TABLE", f.anchor, "reader (from_euler_xyz_coords) and writer (euler_angle) both translate the sequence and reverse the angle columns",
                ok1 and ok2, f"reader ok: {ok1}, writer ok: {ok2}", node=f.node, fn=f, clause="3 euler", stmt="euler reader/writer")
     f = funcs.get(MC + "Molecules.from_euler")
